@@ -78,7 +78,7 @@ PromoOK(p) == ValidPosition(p) /\ p.b[At(PromoFile, 6)] = "P"
 (* ---- mate: white pieces against the black king; White to move *)
 MatePieces == CASE Variant = "KQ" -> <<"Q">> [] Variant = "KR" -> <<"R">> [] Variant = "KRR" -> <<"R", "R">>
                 [] Variant = "KBN" -> <<"B", "N">> [] Variant = "KQP" -> <<"Q">> [] Variant = "KBB" -> <<"B", "B">>
-                [] Variant = "KQQ" -> <<"Q", "Q">> [] Variant = "KQR" -> <<"Q", "R">> [] Variant = "KNN" -> <<"N", "N">>
+                [] Variant = "KB" -> <<"B">> [] Variant = "KN" -> <<"N">> [] Variant = "KQQ" -> <<"Q", "Q">> [] Variant = "KQR" -> <<"Q", "R">> [] Variant = "KNN" -> <<"N", "N">>
                 [] Variant = "KQRR" -> <<"Q", "R", "R">> [] Variant = "KQRB" -> <<"Q", "R", "B">> [] Variant = "KRRR" -> <<"R", "R", "R">>
                 [] OTHER -> <<"Q">>
 MateGen(p) ==
@@ -96,18 +96,23 @@ MateGen(p) ==
         \* optionally one extra defending piece next to its king (mates by capture) and the
         \* attacking pieces within distance 3 of the defending king (VERIF_EXTRA = piece letter)
         extra == IOEnv.VERIF_EXTRA
+        \* an optional second extra defending piece (VERIF_EXTRA2), also next to its king
+        extra2 == IOEnv.VERIF_EXTRA2
+        ys(bk) == IF extra2 = "" THEN {-1} ELSE { y \in Sq : KDist(y, bk) \in {1, 2} }
         xs(bk) == IF extra = "" THEN {-1} ELSE { x \in Sq : KDist(x, bk) \in {1, 2} /\ (Slices = 1 \/ n = 1 \/ x % 4 = Slice % 4) }
         psq(bk) == IF extra = "" THEN Sq ELSE { x \in Sq : KDist(x, bk) <= 3 }
         withx(seq, x) == IF x = -1 THEN seq ELSE seq \o << <<extra, x>> >>
-    IN \E bk \in bks : \E k \in { k \in near(bk) : InSlice(bk * 64 + k) }, x \in xs(bk),
+        withy(seq, y) == IF y = -1 THEN seq ELSE seq \o << <<extra2, y>> >>
+    IN \E bk \in bks : \E k \in { k \in near(bk) : InSlice(bk * 64 + k) }, x \in xs(bk), y \in ys(bk),
           ps \in { q \in [1..n -> psq(bk)] : \/ n = 1 \/ Slices = 1 \/ extra # ""
                                             \/ (n = 2 /\ q[1] % 4 = Slice % 4)
                                             \/ (n >= 3 /\ q[1] % 8 = Slice % 8 /\ q[2] % 8 = (Slice \div 8) % 8) }, sh \in shield :
-          p = [ Mk0(PlaceAll(PlaceAll(EmptyBoard, sh), withx(<< <<"K", k>>, <<"k", bk>> >> \o [i \in 1..n |-> <<MatePieces[i], ps[i]>>], x)), "w", {})
+          p = [ Mk0(PlaceAll(PlaceAll(EmptyBoard, sh), withy(withx(<< <<"K", k>>, <<"k", bk>> >> \o [i \in 1..n |-> <<MatePieces[i], ps[i]>>], x), y)), "w", {})
                 EXCEPT !.hm = hm0 ]
 MateOK(p) == ValidPosition(p)
              /\ Cardinality({ s \in Sq : p.b[s] \in WhiteP }) = 1 + Len(MatePieces)
              /\ Cardinality({ s \in Sq : p.b[s] # "." }) >= 2 + Len(MatePieces) + (IF IOEnv.VERIF_EXTRA = "" THEN 0 ELSE 1)
+                                                             + (IF IOEnv.VERIF_EXTRA2 = "" THEN 0 ELSE 1)
              /\ \A z \in Sq : p.b[z] = "p" => RankOf(z) \in 1..6
              /\ Cardinality({ s \in Sq : p.b[s] = "k" }) = 1 /\ Cardinality({ s \in Sq : p.b[s] = "K" }) = 1
 
@@ -161,4 +166,11 @@ EmitPos == PrintT(<<"POS", ToJson([root |-> 0, name |-> Family, rootfen |-> ToFE
 NoPromoAtRoot == \A m \in Legal(pos) : m.promo = ""
 EmitSearch == PrintT(<<"SPOS", ToJson([fen |-> ToFEN(pos), mirror |-> ToFEN(Mirror(pos)),
                                          mates |-> SortedSeq(Codes(MateMoves(pos))), nopromo |-> NoPromoAtRoot])>>)
+\* only positions in which some mating move is a capture (for the families that look for mates by capture:
+\* the engine treats captures specially - quiescence, insufficient-material test - before its mate test)
+CaptureMates(p) == { m \in { m \in Legal(p) : IsCapture(p, m) } : LET q == Apply(p, m) IN InCheck(q) /\ Legal(q) = {} }
+EmitCaptureMates == (CaptureMates(pos) # {}) =>
+                    LET mm == MateMoves(pos) IN
+                    PrintT(<<"SPOS", ToJson([fen |-> ToFEN(pos), mirror |-> ToFEN(Mirror(pos)),
+                                             mates |-> SortedSeq(Codes(mm)), nopromo |-> NoPromoAtRoot])>>)
 =============================================================================
